@@ -18,7 +18,8 @@ Definition check (c : case) : verdict :=
       match run_tape (single_rvb_sweep g (Some k) st0 sl0) tape with
       | RDone (Some (st, sl, succ)) rest =>
           of_bool (match rest with [] => true | _ => false end
-                   && slots_eqb sl o_sl && bools_eqb st o_st && Nat.eqb succ o_succ)
+                   && slots_eqb sl o_sl && bools_eqb st o_st && Nat.eqb succ o_succ
+                   && wf o_st o_sl && Nat.eqb (count_ops o_sl) (count_ops sl0))
       | RDone None _ => VFail
       | RIndet => VIndet
       | RBad _ => VFail
@@ -27,7 +28,7 @@ Definition check (c : case) : verdict :=
       match run_tape (ising_timestep_rvb g hb beta cutoff0 st0 sl0) tape with
       | RDone (Some (sl, st, c)) rest =>
           of_bool (match rest with [] => true | _ => false end
-                   && slots_eqb sl o_sl && bools_eqb st o_st && Nat.eqb c o_cutoff)
+                   && slots_eqb sl o_sl && bools_eqb st o_st && Nat.eqb c o_cutoff && wf o_st o_sl)
       | RDone None _ => VFail
       | RIndet => VIndet
       | RBad _ => VFail
